@@ -258,13 +258,10 @@ func chunkPart() {
 	if rep.Thorough() {
 		deadline = time.Now().Add(20 * time.Minute)
 	}
-	// non-termination only: a case takes well under a second of CPU, but on a machine shared with
-	// many other runs one was seen to need more than 60 s of wall time, hence the generous limit
-	const wdLimit = 600 * time.Second
-	wd := engine.NewWatchdog(engine.Workers()+1, wdLimit, func(desc string) {
+	wd := engine.NewWatchdog(engine.Workers()+1, 60*time.Second, func(desc string) {
 		var c Case
 		json.Unmarshal([]byte(desc), &c)
-		rep.Fail(engine.Failure{Class: "chunk/non-termination", Detail: fmt.Sprintf("one chunk case ran for more than %v: ", wdLimit) + desc, Case: c}, 0)
+		rep.Fail(engine.Failure{Class: "chunk/non-termination", Detail: "one chunk case ran for more than 60 s: " + desc, Case: c}, 0)
 		rep.Cap("aborted by the non-termination watchdog")
 		rep.Finish()
 	})
